@@ -1,11 +1,45 @@
 /- Spec-driver operations of cluster G. Imports Spec/* only — never Gen or Model. -/
 import PdbVerif.Driver.Json
+import PdbVerif.Driver.GCommon
+import PdbVerif.Spec.C08
 
 namespace Driver.SpecG
-open Lean Driver
+open Lean Driver Driver.GCommon
+
+/-- the chains of a structure, ascending, when there are exactly two -/
+def twoChains (s : List Py.Atom) : Option (Py.Str × Py.Str) :=
+  match Spec.C08.distinct (s.map (·.chainID)) with
+  | [a, b] => if a < b then some (a, b) else some (b, a)
+  | _ => none
+
+def namesConsistentB (s : List Py.Atom) : Bool :=
+  -- one name per residue: compare every atom with the first atom of its residue
+  let firsts := Spec.C08.distinct (s.map (fun a => (Spec.C08.resOf a, a.resName)))
+  decide ((firsts.map (·.1)).length = (Spec.C08.distinct (firsts.map (·.1))).length)
 
 def op (name : String) (j : Json) : Except String (Option Json) := do
   match name with
+  | "fnat" =>
+    let ref ← jAtoms j "ref_atoms"; let dec ← jAtoms j "dec_atoms"
+    -- "default": the property's default cutoff, 5 Å
+    let c ← if (jStr j "cutoff") matches .ok "default" then pure (5 : Rat) else jRat j "cutoff"
+    let R := Spec.C08.contacts c ref
+    let v : Json := match Spec.C08.fnat c ref dec with
+      | some q => ratJ q
+      | none => .str "UNDEFINED"
+    let tr := twoChains ref
+    let td := twoChains dec
+    pure (some (Json.mkObj [
+      ("value", v), ("n_ref", natJ R.length), ("n_preserved", natJ (Spec.C08.preserved c ref dec).length),
+      ("ref_two_chains", boolJ tr.isSome), ("same_chains", boolJ (tr.isSome && tr == td)),
+      ("names_consistent", boolJ (namesConsistentB (ref ++ dec)))]))
+  | "clashes" =>
+    let s ← jAtoms j "atoms"
+    pure (some (Json.mkObj [("value", natJ (Spec.C08.clashes s)),
+      ("at_cutoff", natJ (s.flatMap (fun a => s.filter (fun b =>
+          Spec.C08.chainLt a.chainID b.chainID && !Spec.C08.isHydrogen a && !Spec.C08.isHydrogen b &&
+          decide (Spec.C08.sqDist a b = 9)))).length),
+      ("two_chains", boolJ (twoChains s).isSome)]))
   | _ => pure none
 
 end Driver.SpecG
